@@ -94,6 +94,7 @@ def make_spec():
               "happy_seen", "scared_seen", "server_error_seen", "unwelcome_seen", "claimed_maybe", "opened_maybe"]:
         g[f] = ("bool", "False")
     g["result_kind"] = ("enum:" + ",".join(RESULT_KINDS), "0")
+    g["order_drain_pending"] = ("bool", "False")    # Order.drain has queued messages still to hand to Receive (see order_drain)
     g["close_mood"] = ("enum:none,happy,lonely,scary,errory,unwelcome", "0")
     g["tx_close_mood"] = ("enum:none,happy,lonely,scary,errory,unwelcome", "0")
     g["added"] = ("set[str]", "set()")
@@ -204,6 +205,21 @@ def make_reg():
         return NONE
 
     fm[W + "_mailbox.py:Mailbox._drain"] = mailbox_drain
+
+    def order_drain(it, args, kw, fr):
+        """Order.drain by its contract (proved on the real body in C03: every queued message is handed to
+        Receive.got_message once, in arrival order, unchanged; the queue is emptied).  The hand-overs themselves are
+        explored as the entry point `order.deliver_queued`, which is the only entry enabled while they are pending:
+        they run to completion before anything else can happen, exactly as in the real loop, but each starts from
+        (and must re-establish) the ordinary invariant instead of a separate loop invariant."""
+        o = it.force(args[0])
+        q = o.fields["_queue"]
+        g = it.reg.ghost_obj
+        g.fields["order_drain_pending"] = VBool(z3.Length(q.z) > 0)
+        q.z = z3.Empty(q.z.sort())
+        return NONE
+
+    fm[W + "_order.py:Order.drain"] = order_drain
 
     # ---- crypto libraries
     def secretbox_new(it, args, kw):
@@ -732,6 +748,21 @@ def e_msg_message(eng, it, objs):
             body=inp(it, "body", "str"))
 
 
+def e_order_deliver_queued(eng, it, objs):
+    """one of the messages Order had queued before the PAKE message arrived reaches Receive (the body of the real
+    Order.drain loop); it happens inside RendezvousConnector.ws_message, whose handler reports any exception to the
+    Boss and re-raises"""
+    it.ctx.assume(T_(it, objs, "connected"))
+    side, phase, body = inp(it, "side", "str"), inp(it, "phase", "str"), inp(it, "body", "bytes")
+    it.ctx.assume(phase.z != z3.StringVal("pake"))         # Order queues non-pake messages only
+    setg(objs, "order_drain_pending", VBool(z3.Bool(it.ctx.namer("more_queued"))))
+    try:
+        call(it, objs["O"], "_deliver", side, phase, body)
+    except PyRaise as e:
+        call(it, objs["B"], "error", e.exc)
+        raise
+
+
 def e_msg_error(eng, it, objs):
     it.ctx.assume(T_(it, objs, "bound"))
     orig = it.fresh("json", "orig")
@@ -816,6 +847,17 @@ ENTRIES = [
     Entry("msg.ack", e_msg_ack),
     Entry("msg.unknown", e_msg_unknown),
 ]
+
+
+def _not_while_draining(fn):
+    def run(eng, it, objs):
+        it.ctx.assume(z3.Not(T_(it, objs, "order_drain_pending")))
+        return fn(eng, it, objs)
+    return run
+
+
+ENTRIES = [Entry(e.name, _not_while_draining(e.run), e.allowed_exc) for e in ENTRIES] + \
+    [Entry("order.deliver_queued", e_order_deliver_queued)]
 
 
 TX_GHOST = ["bound", "claim_sent", "claim_owed", "release_sent", "release_owed", "open_sent", "close_sent", "close_owed",
